@@ -426,6 +426,40 @@ def run(ctx):
         if r.result[0] != "ok" or r.output != expect:
             ctx.violation("strings built by routes %s/%s compare/hash differently from their bytes" % meta[:2],
                           input=src, expected=expect, actual=r.output + [str(r.result)])
+    # volume: identity must not depend on how many strings were created before (release build: the debug build
+    # collects at every allocation and would take minutes); 60000 distinct pairs cross any table-size threshold < 2^17
+    nvol = 60000 if quick else 200000
+    vol_src = "\n".join([
+        'fn check(n) { var a = "user:${n}"; var b = "user:" + String.from(n); var m = {a: 7}; return [a == b, m.has_key(b), m.get(b)]; }',
+        "print(check(1));",
+        'var bad = 0; var first = nil; var i = 0;',
+        'while i < %d { var x = "line ${i}"; var y = "line " + String.from(i); if x != y { bad = bad + 1; if first == nil { first = i; } } i = i + 1; }' % nvol,
+        "print(bad); print(first); print(check(2));",
+        'var k = "k" + String.from(%d); var mm = {k: 1}; print(mm.has_key("k%d")); print(("k%d", 1) == (k, 1));' % (nvol, nvol, nvol)])
+    vol_expect = ["[true, true, 7]", "0", "nil", "[true, true, 7]", "true", "true"]
+    rbin = ctx.harness("release")
+    vrec = yvlib.run_harness(rbin, ["run - " + hx(vol_src.encode())], shards=1, case_timeout_ms=120000)[0]
+    if vrec.result[0] != "ok" or vrec.output != vol_expect:
+        ctx.violation("after %d distinct strings were created, equal texts built by two routes are no longer the same string" % (2 * nvol),
+                      input=vol_src, expected=vol_expect, actual=vrec.output + [str(vrec.result)], build="release")
+    # a string held by the host across Vm::reset() keeps its identity (harness command c01seq reset, owned by C01)
+    reset_cases = 0
+    for t in ["session-token", "x" * 40, "né€", "a\\nb"]:
+        lit = esc(t) if "\\" not in t else '"a\\nb"'
+        half = len(t) // 2
+        s1 = "var token = %s + %s; print(token == %s);" % (esc(t[:half]) if "\\" not in t else '"a"', esc(t[half:]) if "\\" not in t else '"\\nb"', lit)
+        s2 = "\n".join(["print(token == %s);" % lit, "var m = {token: 1}; print(m.has_key(%s)); print(m.get(%s + \"\"));" % (lit, lit),
+                         "var m2 = {%s: 2}; print(m2.get(token)); print((token, 0) == (%s, 0));" % (lit, lit)])
+        rr = yvlib.run_harness(binary, ["c01seq - reset %s %s %s" % (hx(b"token"), hx(s1.encode()), hx(s2.encode()))], quarantine=True, shards=1)[0]
+        reset_cases += 1
+        want = ["true", "true", "true", "1", "2", "true"]
+        if "KEPT" not in " ".join(rr.lines) and rr.result[0] not in ("panic", "crash") and not rr.uaf:
+            ctx.notes.append("c01seq reset not available: host-held string across reset not checked")
+            break
+        if rr.result[0] != "ok" or rr.output != want or rr.uaf:
+            ctx.violation("a string held by the host across Vm::reset() is no longer the same string as an equal text created afterwards",
+                          input="c01seq reset token | " + s1 + " | " + s2, expected=want, actual=rr.output + [str(rr.result), "uaf=%s" % rr.uaf])
+    ctx.cov.update({"volume_strings": 2 * nvol, "reset_cases": reset_cases})
     ctx.cov.update({
         "evaluations": n + len(texts) + len(progs),
         "distinct_nontrivial": len(nontriv) + len(routes),
